@@ -34,7 +34,7 @@ CONFIGS = {
     "dup": ["n1", "n1"],
 }
 COMMANDS = ("fail", "noop", "continue", "retry")
-ALL_TASKS = (T, "n1", "n2", "j1", "fail", "noop", "continue")
+ALL_TASKS = (T, "n1", "n2", "j1", "fail", "noop", "continue", "z9")
 WF_CASES = [st.RUNNING, st.PAUSING, st.CANCELING, st.FAILED, st.RESUMING]
 REC_CASES = [None, st.REQUESTED, st.RUNNING, st.PENDING, st.PAUSING, st.PAUSED, st.CANCELING, st.RETRYING,
              st.SUCCEEDED, st.FAILED, st.CANCELED]
@@ -90,6 +90,8 @@ class UpdateTaskState(Unit):
             "the ready flag of a (re)staged non-command successor equals 'inbound criteria satisfied'"},
         "C04.uts.run_on_fail_marking": {"props": ["C04", "C10"], "text":
             "run_on_fail is set only on ready non-command entries staged beside a fail command whose condition was true"},
+        "C18.uts.unrelated_staged_untouched": {"props": ["C18", "C04", "C09"], "text":
+            "a staged entry of a task that is neither the reporting task nor one of its transition targets is left exactly as it was (in particular it is never marked run_on_fail)"},
         "C02.uts.links": {"props": ["C02"], "text":
             "the workflow machine is consulted with an event carrying exactly the status of the reporting task's latest record"},
         "C05.sep.record_creation": {"props": ["C05", "C18", "C07"], "text":
@@ -222,6 +224,9 @@ class UpdateTaskState(Unit):
                            "ready": S.mk_bool("pre_ready_%s" % tg)}
                     staged.append(ent)
                     tgt_pre[tg] = ent
+            # an unrelated branch's entry, staged earlier (ready or not): must never be touched
+            unrelated = {"id": "z9", "route": 0, "ctxs": {"in": [0]}, "prev": {"y__t0": 0}, "ready": S.mk_bool("unrelated_ready")}
+            staged.append(unrelated)
             snap_seq = [cbase.snapshot(r) for r in sequence]
             seq_ids = list(sequence)
             snap_ctx = list(contexts)
@@ -486,6 +491,7 @@ class UpdateTaskState(Unit):
                     rz = rdy.z if isinstance(rdy, SBool) else z3.BoolVal(bool(rdy))
                     O("C04.uts.run_on_fail_marking", z3.And(z3.BoolVal(fail_true and x["id"] not in COMMANDS and completed_now), rz))
             O("C04.uts.run_on_fail_marking", True)
+            O("C18.uts.unrelated_staged_untouched", unrelated in staged and _same(e, unrelated, snap_staged[id(unrelated)]))
             # separation
             for r in appended:
                 for x in staged:
